@@ -633,7 +633,12 @@ func (h *Hist) step() {
 		if d, ok := h.pickDir(); ok && IsTrackedDir(h.obs, d) {
 			sib := d + r.pick([]string{"-old", ".x", " e", "+1", "!"})
 			if _, exists := h.obs.Files[sib]; !exists && !isDirIn(h.obs, sib) {
-				h.W("write", sib, h.content())
+				// the sibling is a file, or a directory holding one
+				if r.chance(1, 2) {
+					h.W("write", sib, h.content())
+				} else {
+					h.W("write", sib+"/"+h.comp(), h.content())
+				}
 			}
 			h.W("write", d+"/"+r.pick([]string{"0first", "a", "A"}), h.content())
 			h.X(tz, "add", ".")
